@@ -1,13 +1,764 @@
 """C14 facts: decision shape of the wildcard code (glom/core.py `_t_eval` 'x'/'X' branch,
-`_extend_children`, `TType.__stars__`; glom/mutation.py `_apply_for_each`).
+`_extend_children`, `TType.__stars__`, `TType.__star__` / `__starstar__`, `Path.from_text`;
+glom/mutation.py `_apply_for_each`).
 
 Emits lean/Glom/Generated/C14Facts.lean (flags + the exception classes each `except` names +
 c14RemainderRoot: per root of the original path (T / S / A) the root of the path `todo` that the
 'x' / 'X' branch evaluates on every child — T: the remainder continues from the child; S: it starts
-again from the scope and ignores the child).
-An unrecognised shape is reported through P.add and yields `false` / an empty table.
+again from the scope and ignores the child; c14Dispatch: which op characters of `_t_eval`'s dispatch
+chain reach the wildcard branch and which half of it; c14Recorded: the op character `__star__` /
+`__starstar__` record; c14PathStarSwitch: `Path.from_text` maps '*' / '**' to the wildcard constants
+iff the module switch PATH_STAR is on, and keeps them as plain segments otherwise).
+
+How a shape is recognised.  The source of a function (or of the wildcard branch) is brought into a
+*canonical form* and compared, as an AST, with the canonical form of a template written below — the
+code the Lean model mirrors.  The canonical form is invariant under rewrites that cannot change
+behaviour:
+
+  * local variables renamed (alpha-renaming in order of first occurrence);
+  * a literal moved to a module-level constant (the name is resolved by importing the module and
+    replaced by the value it is bound to: strings, numbers, tuples / lists / sets of those or of classes);
+  * `isinstance(x, A) or isinstance(x, B)`  ==  `isinstance(x, (A, B))`;
+  * a list display where only its items matter (`for … in [..]`, `x in [..]`, isinstance) == a tuple;
+  * `if not c: A else: B` == `if c: B else: A`;  `if c: A; return` + rest == `if c: A else: rest`
+    (only a bare `return` / `return None`, only where falling through ends the function);
+    `try … except E: return` + rest == `try … except E: pass else: rest`;
+  * an index loop `i = 0; while i < len(L): x = L[i]; …; i += 1` == `for x in L: …` (also over a
+    list that grows — both re-read the length), `i = 0; while i < n: …; i += 1` == `for i in range(n)`;
+  * `x == 'a' or x == 'b'` / `x in ('a', 'b')` / `x in 'ab'` (single characters) — one form;
+  * independent adjacent simple assignments in another order.
+
+Anything else — another statement, another `except` class, another test, a returned status — leaves the
+canonical forms different: the shape flag is `false`, the problem is reported through P.add, and the WF
+obligation `c14_facts_wf` fails.  The exception classes, the guard's types and the root of the remainder
+are read from the recognised positions and are facts of their own (the WF compares them with the model).
 """
 import ast
+import builtins
+import copy
+import importlib
+
+
+# ---------------------------------------------------------------- canonical form
+def _is_bare_return(st):
+    return isinstance(st, ast.Return) and (st.value is None or
+                                           (isinstance(st.value, ast.Constant) and st.value.value is None))
+
+
+def _strip_doc(body):
+    if body and isinstance(body[0], ast.Expr) and isinstance(body[0].value, ast.Constant) \
+            and isinstance(body[0].value.value, str):
+        return body[1:] or [ast.Pass()]
+    return body
+
+
+def _local_names(fn):
+    """names bound inside the function: parameters, assignment / loop / with / except targets"""
+    out = set()
+    a = fn.args
+    for x in a.posonlyargs + a.args + a.kwonlyargs:
+        out.add(x.arg)
+    if a.vararg:
+        out.add(a.vararg.arg)
+    if a.kwarg:
+        out.add(a.kwarg.arg)
+    for n in ast.walk(fn):
+        if isinstance(n, ast.Name) and isinstance(n.ctx, (ast.Store, ast.Del)):
+            out.add(n.id)
+        elif isinstance(n, ast.ExceptHandler) and n.name:
+            out.add(n.name)
+        elif isinstance(n, (ast.FunctionDef, ast.ClassDef)) and n is not fn:
+            out.add(n.name)
+    return out
+
+
+def _const_node(v, module, depth=0):
+    """AST of a simple constant value bound at module level, else None"""
+    if v is None or isinstance(v, (bool, int, float, str, bytes)):
+        return ast.Constant(value=v)
+    if isinstance(v, type):
+        n = v.__name__
+        if getattr(builtins, n, None) is v or getattr(module, n, None) is v:
+            return ast.Name(id=n, ctx=ast.Load())
+        return None
+    if depth > 2:
+        return None
+    if isinstance(v, (tuple, list)):
+        elts = [_const_node(x, module, depth + 1) for x in v]
+        if any(e is None for e in elts):
+            return None
+        return (ast.Tuple if isinstance(v, tuple) else ast.List)(elts=elts, ctx=ast.Load())
+    if isinstance(v, (set, frozenset)):
+        try:
+            items = sorted(v, key=repr)
+        except Exception:
+            return None
+        elts = [_const_node(x, module, depth + 1) for x in items]
+        if any(e is None for e in elts) or not elts:
+            return None
+        node = ast.Set(elts=elts)
+        if isinstance(v, frozenset):
+            node = ast.Call(func=ast.Name(id='frozenset', ctx=ast.Load()), args=[node], keywords=[])
+        return node
+    return None
+
+
+class _ResolveConstants(ast.NodeTransformer):
+    """a module-level name bound to a simple constant is replaced by that constant"""
+    def __init__(self, module, locals_, keep):
+        self.module, self.locals, self.keep = module, locals_, keep
+
+    def visit_Name(self, node):
+        if (isinstance(node.ctx, ast.Load) and node.id not in self.locals and node.id not in self.keep
+                and not hasattr(builtins, node.id) and self.module is not None
+                and node.id in vars(self.module)):
+            v = vars(self.module)[node.id]
+            if isinstance(v, type):
+                return node          # a class keeps its name
+            c = _const_node(v, self.module)
+            if c is not None:
+                return ast.copy_location(c, node)
+        return node
+
+
+def _isinstance_parts(node):
+    """(unparsed first argument, [type expressions]) of an isinstance call, else None"""
+    if (isinstance(node, ast.Call) and isinstance(node.func, ast.Name) and node.func.id == 'isinstance'
+            and len(node.args) == 2 and not node.keywords):
+        t = node.args[1]
+        types = list(t.elts) if isinstance(t, (ast.Tuple, ast.List)) else [t]
+        return ast.unparse(node.args[0]), types
+    return None
+
+
+def _chars_test(node):
+    """(unparsed subject, [characters]) of `x == 'a'` / `x in 'ab'` / `x in ('a', 'b')`, else None"""
+    if isinstance(node, ast.Compare) and len(node.ops) == 1:
+        c = node.comparators[0]
+        subj = ast.unparse(node.left)
+        if isinstance(node.ops[0], ast.Eq) and isinstance(c, ast.Constant) and isinstance(c.value, str) \
+                and len(c.value) == 1:
+            return subj, [c.value]
+        if isinstance(node.ops[0], ast.In):
+            if isinstance(c, ast.Constant) and isinstance(c.value, str) and c.value:
+                return subj, list(c.value)
+            if isinstance(c, (ast.Tuple, ast.List, ast.Set)) and c.elts and all(
+                    isinstance(e, ast.Constant) and isinstance(e.value, str) and len(e.value) == 1
+                    for e in c.elts):
+                return subj, [e.value for e in c.elts]
+    return None
+
+
+class _ExprNorm(ast.NodeTransformer):
+    def visit_BoolOp(self, node):
+        self.generic_visit(node)
+        if isinstance(node.op, ast.Or):
+            # merge adjacent isinstance tests on the same subject, and adjacent character tests
+            out = []
+            for v in node.values:
+                p = _isinstance_parts(v)
+                q = _isinstance_parts(out[-1]) if out else None
+                if p and q and p[0] == q[0]:
+                    out[-1] = ast.Call(func=ast.Name(id='isinstance', ctx=ast.Load()),
+                                       args=[out[-1].args[0], ast.Tuple(elts=q[1] + p[1], ctx=ast.Load())],
+                                       keywords=[])
+                    continue
+                c = _chars_test(v)
+                d = _chars_test(out[-1]) if out else None
+                if c and d and c[0] == d[0]:
+                    out[-1] = ast.Compare(left=out[-1].left, ops=[ast.In()],
+                                          comparators=[ast.Tuple(elts=[ast.Constant(value=x) for x in d[1] + c[1]],
+                                                                 ctx=ast.Load())])
+                    continue
+                out.append(v)
+            if len(out) == 1:
+                return self._final(out[0])
+            node.values = out
+        return node
+
+    def _final(self, node):
+        if isinstance(node, ast.Call):
+            return self.visit_Call_post(node)
+        if isinstance(node, ast.Compare):
+            return self.visit_Compare_post(node)
+        return node
+
+    def visit_Call(self, node):
+        self.generic_visit(node)
+        return self.visit_Call_post(node)
+
+    def visit_Call_post(self, node):
+        p = _isinstance_parts(node)
+        if p:
+            node.args[1] = ast.Tuple(elts=p[1], ctx=ast.Load())
+        # set([a, b]) / set((a, b))  ==  {a, b}
+        if (isinstance(node.func, ast.Name) and node.func.id == 'set' and len(node.args) == 1 and not node.keywords
+                and isinstance(node.args[0], (ast.List, ast.Tuple)) and node.args[0].elts):
+            return ast.Set(elts=node.args[0].elts)
+        return node
+
+    def visit_Assign(self, node):
+        self.generic_visit(node)
+        # X[:0] = [e]  ==  X.insert(0, e)
+        if (len(node.targets) == 1 and isinstance(node.targets[0], ast.Subscript)
+                and isinstance(node.targets[0].value, ast.Name) and isinstance(node.targets[0].slice, ast.Slice)
+                and node.targets[0].slice.lower is None and node.targets[0].slice.step is None
+                and isinstance(node.targets[0].slice.upper, ast.Constant) and node.targets[0].slice.upper.value == 0
+                and isinstance(node.value, ast.List) and len(node.value.elts) == 1):
+            x = node.targets[0].value.id
+            return ast.Expr(value=ast.Call(
+                func=ast.Attribute(value=ast.Name(id=x, ctx=ast.Load()), attr='insert', ctx=ast.Load()),
+                args=[ast.Constant(value=0), node.value.elts[0]], keywords=[]))
+        return node
+
+    def visit_Compare(self, node):
+        self.generic_visit(node)
+        return self.visit_Compare_post(node)
+
+    def visit_Compare_post(self, node):
+        c = _chars_test(node)
+        if c:
+            # one form for a test of a character against a set of characters
+            return ast.Compare(left=node.left, ops=[ast.In()],
+                               comparators=[ast.Tuple(elts=[ast.Constant(value=x) for x in c[1]], ctx=ast.Load())])
+        if len(node.ops) == 1 and isinstance(node.ops[0], (ast.In, ast.NotIn)) \
+                and isinstance(node.comparators[0], ast.List):
+            node.comparators[0] = ast.Tuple(elts=node.comparators[0].elts, ctx=ast.Load())
+        return node
+
+    def visit_UnaryOp(self, node):
+        self.generic_visit(node)
+        if isinstance(node.op, ast.Not) and isinstance(node.operand, ast.Compare) and len(node.operand.ops) == 1:
+            flip = {ast.Is: ast.IsNot, ast.IsNot: ast.Is, ast.In: ast.NotIn, ast.NotIn: ast.In,
+                    ast.Eq: ast.NotEq, ast.NotEq: ast.Eq}
+            t = type(node.operand.ops[0])
+            if t in flip:
+                node.operand.ops = [flip[t]()]
+                return node.operand
+        return node
+
+    def visit_For(self, node):
+        self.generic_visit(node)
+        if isinstance(node.iter, ast.List):
+            node.iter = ast.Tuple(elts=node.iter.elts, ctx=ast.Load())
+        return node
+
+    def visit_comprehension(self, node):
+        self.generic_visit(node)
+        if isinstance(node.iter, ast.List):
+            node.iter = ast.Tuple(elts=node.iter.elts, ctx=ast.Load())
+        return node
+
+
+def _names_in(node):
+    return {n.id for n in ast.walk(node) if isinstance(n, ast.Name)}
+
+
+def _while_to_for(body):
+    """`i = 0; while i < len(L): x = L[i]; …; i += 1`  ->  `for x in L: …`
+       `i = 0; while i < n: …; i += 1`                ->  `for i in range(n): …`
+    (the counter must not be used otherwise, no `continue` in the body, no `else`)"""
+    out = []
+    k = 0
+    while k < len(body):
+        st = body[k]
+        nxt = body[k + 1] if k + 1 < len(body) else None
+        done = False
+        if (isinstance(st, ast.Assign) and len(st.targets) == 1 and isinstance(st.targets[0], ast.Name)
+                and isinstance(st.value, ast.Constant) and st.value.value == 0 and type(st.value.value) is int
+                and isinstance(nxt, ast.While) and not nxt.orelse and nxt.body):
+            i = st.targets[0].id
+            t = nxt.test
+            last = nxt.body[-1]
+            inc = (isinstance(last, ast.AugAssign) and isinstance(last.op, ast.Add)
+                   and isinstance(last.target, ast.Name) and last.target.id == i
+                   and isinstance(last.value, ast.Constant) and last.value.value == 1) or \
+                  (isinstance(last, ast.Assign) and ast.unparse(last) in ('%s = %s + 1' % (i, i), '%s = 1 + %s' % (i, i)))
+            has_continue = any(isinstance(n, ast.Continue) for s in nxt.body for n in ast.walk(s))
+            rest_uses = any(i in _names_in(s) for s in body[k + 2:])
+            if (inc and not has_continue and isinstance(t, ast.Compare) and len(t.ops) == 1
+                    and isinstance(t.ops[0], ast.Lt) and isinstance(t.left, ast.Name) and t.left.id == i):
+                bound = t.comparators[0]
+                inner = nxt.body[:-1]
+                # index form over a list
+                if (isinstance(bound, ast.Call) and isinstance(bound.func, ast.Name) and bound.func.id == 'len'
+                        and len(bound.args) == 1 and isinstance(bound.args[0], ast.Name) and inner
+                        and isinstance(inner[0], ast.Assign) and len(inner[0].targets) == 1
+                        and isinstance(inner[0].targets[0], ast.Name)
+                        and ast.unparse(inner[0].value) == '%s[%s]' % (bound.args[0].id, i)
+                        and not any(i in _names_in(s) for s in inner[1:]) and not rest_uses):
+                    out.append(ast.For(target=ast.Name(id=inner[0].targets[0].id, ctx=ast.Store()),
+                                       iter=ast.Name(id=bound.args[0].id, ctx=ast.Load()),
+                                       body=inner[1:] or [ast.Pass()], orelse=[]))
+                    done = True
+                elif (i not in _names_in(bound) and not rest_uses
+                      and not any(isinstance(n, ast.Name) and n.id == i and isinstance(n.ctx, ast.Store)
+                                  for s in inner for n in ast.walk(s))
+                      # the bound is re-read by `while` and read once by `range`: it must not change
+                      and not (_names_in(bound) & {n.id for s in inner for n in ast.walk(s)
+                                                   if isinstance(n, ast.Name) and isinstance(n.ctx, ast.Store)})):
+                    out.append(ast.For(target=ast.Name(id=i, ctx=ast.Store()),
+                                       iter=ast.Call(func=ast.Name(id='range', ctx=ast.Load()), args=[bound], keywords=[]),
+                                       body=inner or [ast.Pass()], orelse=[]))
+                    done = True
+        if done:
+            k += 2
+        else:
+            out.append(st)
+            k += 1
+    return out
+
+
+def _ends_with_bare_return(stmts):
+    return bool(stmts) and _is_bare_return(stmts[-1])
+
+
+def _drop_last(stmts):
+    return stmts[:-1] or [ast.Pass()]
+
+
+def _norm_block(body, tail):
+    """control-flow canonical form of a statement list; `tail`: falling off its end ends the function"""
+    body = _while_to_for(list(body))
+    out = []
+    k = 0
+    while k < len(body):
+        st = body[k]
+        rest = body[k + 1:]
+        last = not rest
+        if isinstance(st, ast.If):
+            if tail and rest and not st.orelse and _ends_with_bare_return(st.body):
+                # `if c: A; return` + rest  ==  `if c: A else: rest`
+                st = ast.If(test=st.test, body=_drop_last(st.body), orelse=rest)
+                body = body[:k] + [st]
+                rest, last = [], True
+            st.body = _norm_block(st.body, tail and last)
+            st.orelse = _norm_block(st.orelse, tail and last) if st.orelse else []
+            if st.orelse and isinstance(st.test, ast.UnaryOp) and isinstance(st.test.op, ast.Not):
+                st = ast.If(test=st.test.operand, body=st.orelse, orelse=st.body)
+            if st.orelse and all(isinstance(s, ast.Pass) for s in st.orelse):
+                st.orelse = []
+            out.append(st)
+        elif isinstance(st, ast.Try):
+            if (tail and rest and not st.finalbody and st.handlers
+                    and all(_ends_with_bare_return(h.body) for h in st.handlers)):
+                # `try: A except E: …; return` + rest  ==  `try: A except E: … else: rest`
+                st.orelse = list(st.orelse) + rest
+                body = body[:k] + [st]
+                rest, last = [], True
+            st.body = _norm_block(st.body, False)
+            for h in st.handlers:
+                h.body = _norm_block(h.body, tail and last)
+            st.orelse = _norm_block(st.orelse, tail and last and not st.finalbody) if st.orelse else []
+            st.finalbody = _norm_block(st.finalbody, False) if st.finalbody else []
+            out.append(st)
+        elif isinstance(st, (ast.For, ast.While)):
+            st.body = _norm_block(st.body, False)
+            st.orelse = _norm_block(st.orelse, False) if st.orelse else []
+            out.append(st)
+        elif isinstance(st, ast.With):
+            st.body = _norm_block(st.body, tail and last)
+            out.append(st)
+        elif tail and last and _is_bare_return(st):
+            pass                        # falling off the end returns None as well
+        else:
+            out.append(st)
+        k += 1
+    # drop `pass` next to other statements
+    if len(out) > 1:
+        out = [s for s in out if not isinstance(s, ast.Pass)] or [ast.Pass()]
+    if not out:
+        out = [ast.Pass()]
+    return _sort_independent(out)
+
+
+def _simple_assign(st):
+    return (isinstance(st, ast.Assign) and len(st.targets) == 1 and isinstance(st.targets[0], ast.Name))
+
+
+def _masked_dump(node, locals_):
+    node = copy.deepcopy(node)
+    for n in ast.walk(node):
+        if isinstance(n, ast.Name) and n.id in locals_:
+            n.id = '_'
+    return ast.dump(node)
+
+
+_SORT_LOCALS = [set()]      # the local names of the function being canonicalised (for the sort key)
+
+
+def _sort_independent(body):
+    """a maximal run of adjacent `name = expr` whose expressions do not use each other's targets and of
+    which at most one contains a call is put into a fixed order (by the expression, locals masked)"""
+    out = []
+    k = 0
+    while k < len(body):
+        run = []
+        while k < len(body) and _simple_assign(body[k]):
+            run.append(body[k])
+            k += 1
+        if len(run) > 1:
+            targets = [s.targets[0].id for s in run]
+            calls = sum(1 for s in run if any(isinstance(n, ast.Call) for n in ast.walk(s.value)))
+            indep = all(not (_names_in(s.value) & set(targets)) for s in run) and len(set(targets)) == len(run)
+            keys = [_masked_dump(s.value, _SORT_LOCALS[0]) for s in run]
+            if indep and calls <= 1 and len(set(keys)) == len(keys):
+                run = [s for _, s in sorted(zip(keys, run), key=lambda p: p[0])]
+        out += run
+        if k < len(body):
+            out.append(body[k])
+            k += 1
+    return out
+
+
+def _seq_temps(fn_or_stmts, locals_):
+    """local names every use of which only looks at the items (`*v`, `for … in v`, `x in v`, `len(v)`,
+    `v[i]`): for those a list and a tuple are interchangeable"""
+    nodes = fn_or_stmts if isinstance(fn_or_stmts, list) else [fn_or_stmts]
+    ok_use = set()
+    for top in nodes:
+        for n in ast.walk(top):
+            if isinstance(n, ast.Starred) and isinstance(n.value, ast.Name):
+                ok_use.add(id(n.value))
+            elif isinstance(n, (ast.For, ast.comprehension)) and isinstance(n.iter, ast.Name):
+                ok_use.add(id(n.iter))
+            elif isinstance(n, ast.Compare) and len(n.ops) == 1 and isinstance(n.ops[0], (ast.In, ast.NotIn)) \
+                    and isinstance(n.comparators[0], ast.Name):
+                ok_use.add(id(n.comparators[0]))
+            elif isinstance(n, ast.Call) and isinstance(n.func, ast.Name) and n.func.id == 'len' and len(n.args) == 1 \
+                    and isinstance(n.args[0], ast.Name):
+                ok_use.add(id(n.args[0]))
+            elif isinstance(n, ast.Subscript) and isinstance(n.ctx, ast.Load) and isinstance(n.value, ast.Name):
+                ok_use.add(id(n.value))
+    bad = set()
+    for top in nodes:
+        for n in ast.walk(top):
+            if isinstance(n, ast.Name) and isinstance(n.ctx, ast.Load) and id(n) not in ok_use:
+                bad.add(n.id)
+    return {v for v in locals_ if v not in bad}
+
+
+class _SeqTempNorm(ast.NodeTransformer):
+    """`v = tuple(<gen>)` / `list(<gen>)` / `tuple([…comp…])` / `(a, b)`  ->  `v = […]` for a sequence temporary"""
+    def __init__(self, temps):
+        self.temps = temps
+
+    def visit_Assign(self, node):
+        self.generic_visit(node)
+        if len(node.targets) == 1 and isinstance(node.targets[0], ast.Name) and node.targets[0].id in self.temps:
+            v = node.value
+            if (isinstance(v, ast.Call) and isinstance(v.func, ast.Name) and v.func.id in ('tuple', 'list')
+                    and len(v.args) == 1 and not v.keywords):
+                a = v.args[0]
+                if isinstance(a, ast.GeneratorExp):
+                    node.value = ast.ListComp(elt=a.elt, generators=a.generators)
+                elif isinstance(a, (ast.ListComp, ast.List)):
+                    node.value = a
+                elif isinstance(a, ast.Tuple):
+                    node.value = ast.List(elts=a.elts, ctx=ast.Load())
+            elif isinstance(v, ast.Tuple):
+                node.value = ast.List(elts=v.elts, ctx=ast.Load())
+        return node
+
+
+class _Alpha(ast.NodeTransformer):
+    """rename the given names v0, v1, … in order of first occurrence"""
+    def __init__(self, names):
+        self.names, self.map = names, {}
+
+    def _ren(self, n):
+        if n in self.names:
+            if n not in self.map:
+                self.map[n] = 'v%d' % len(self.map)
+            return self.map[n]
+        return n
+
+    def visit_Name(self, node):
+        node.id = self._ren(node.id)
+        return node
+
+    def visit_arg(self, node):
+        node.arg = self._ren(node.arg)
+        node.annotation = None
+        return node
+
+    def visit_ExceptHandler(self, node):
+        if node.type is not None:
+            node.type = self.visit(node.type)
+        used = node.name and any(isinstance(n, ast.Name) and n.id == node.name
+                                 for s in node.body for n in ast.walk(s))
+        node.name = self._ren(node.name) if used else None      # an unused `as e` says nothing
+        node.body = [self.visit(s) for s in node.body]
+        return node
+
+
+def canon_stmts(stmts, module, locals_, tail, keep=()):
+    """canonical form (a list of statements) of a statement list of a function whose local names are
+    `locals_`; returns (statements, renaming)"""
+    stmts = copy.deepcopy(list(stmts))
+    holder = ast.Module(body=stmts, type_ignores=[])
+    holder = _ResolveConstants(module, locals_, set(keep)).visit(holder)
+    holder = _ExprNorm().visit(holder)
+    holder = _SeqTempNorm(_seq_temps(holder.body, set(locals_))).visit(holder)
+    _SORT_LOCALS[0] = set(locals_)
+    body = _norm_block(holder.body, tail)
+    holder = ast.Module(body=body, type_ignores=[])
+    al = _Alpha(set(locals_))
+    holder = al.visit(holder)
+    ast.fix_missing_locations(holder)
+    return holder.body, al.map
+
+
+def canon_function(fn, module, keep=()):
+    fn = copy.deepcopy(fn)
+    fn.body = _strip_doc(fn.body)
+    fn.decorator_list = []
+    fn.returns = None
+    locs = _local_names(fn)
+    wrapper = ast.Module(body=[fn], type_ignores=[])
+    wrapper = _ResolveConstants(module, locs, set(keep)).visit(wrapper)
+    wrapper = _ExprNorm().visit(wrapper)
+    wrapper = _SeqTempNorm(_seq_temps(wrapper.body[0], locs - {x.arg for x in wrapper.body[0].args.args})).visit(wrapper)
+    fn = wrapper.body[0]
+    _SORT_LOCALS[0] = set(locs)
+    fn.body = _norm_block(fn.body, True)
+    al = _Alpha(locs)
+    fn.name = 'f'
+    fn = al.visit(fn)
+    ast.fix_missing_locations(fn)
+    return fn, al.map
+
+
+def _dump(nodes):
+    if isinstance(nodes, list):
+        return '\n'.join(ast.dump(n) for n in nodes)
+    return ast.dump(nodes)
+
+
+def _mask_handlers(node):
+    """the classes named by every `except` of the (canonical) tree, in source order, the tree with the
+    classes blanked"""
+    node = copy.deepcopy(node)
+    holder = node if not isinstance(node, list) else ast.Module(body=node, type_ignores=[])
+    found = []
+
+    class V(ast.NodeVisitor):
+        def visit_Try(self, t):
+            for s in t.body:
+                self.visit(s)
+            for h in t.handlers:
+                if h.type is None:
+                    found.append(['BaseException'])
+                elif isinstance(h.type, ast.Tuple):
+                    found.append([ast.unparse(e) for e in h.type.elts])
+                else:
+                    found.append([ast.unparse(h.type)])
+                h.type = ast.Name(id='__EXC__', ctx=ast.Load())
+                for s in h.body:
+                    self.visit(s)
+            for s in t.orelse + t.finalbody:
+                self.visit(s)
+    V().visit(holder)
+    return found, node
+
+
+# ---------------------------------------------------------------- templates: the code the model mirrors
+T_EXTEND_CHILDREN = '''
+def _extend_children(children, item, get_handler):
+    try:
+        %s
+        if keys is _ObjStyleKeys.get_keys and isinstance(item, __GUARD__):
+            raise UnregisteredTarget('keys', type(item), OrderedDict(), None)
+    except UnregisteredTarget:
+        try:
+            iterate = get_handler('iterate', item)
+        except UnregisteredTarget:
+            pass
+        else:
+            try:
+                children.extend(iterate(item))
+            except Exception:
+                pass
+    else:
+        try:
+            for key in keys(item):
+                try:
+                    children.append(get(item, key))
+                except Exception:
+                    pass
+        except Exception:
+            pass
+'''
+# the two handler look-ups of the `try` in either order (both are inside the same `try`)
+T_EXTEND_CHILDREN_HEADS = ["keys = get_handler('keys', item)\n        get = get_handler('get', item)",
+                           "get = get_handler('get', item)\n        keys = get_handler('keys', item)"]
+
+# the wildcard branch: how `nxt` is filled (three equivalent arrangements) …
+T_STAR_HEADS = ['''
+nxt = []
+get_handler = scope[TargetRegistry].get_handler
+if op == 'x':
+    _extend_children(nxt, cur, get_handler)
+elif op == 'X':
+    sofar = {id(cur)}
+    _extend_children(nxt, cur, get_handler)
+    for item in nxt:
+        if id(item) not in sofar:
+            sofar.add(id(item))
+            _extend_children(nxt, item, get_handler)
+    nxt.insert(0, cur)
+''', '''
+nxt = []
+get_handler = scope[TargetRegistry].get_handler
+if op == 'x':
+    _extend_children(nxt, cur, get_handler)
+else:
+    sofar = {id(cur)}
+    _extend_children(nxt, cur, get_handler)
+    for item in nxt:
+        if id(item) not in sofar:
+            sofar.add(id(item))
+            _extend_children(nxt, item, get_handler)
+    nxt.insert(0, cur)
+''', '''
+nxt = []
+get_handler = scope[TargetRegistry].get_handler
+_extend_children(nxt, cur, get_handler)
+if op == 'X':
+    sofar = {id(cur)}
+    for item in nxt:
+        if id(item) not in sofar:
+            sofar.add(id(item))
+            _extend_children(nxt, item, get_handler)
+    nxt.insert(0, cur)
+''']
+# … and how the remainder is evaluated on every entry (`list.append` raises no PathAccessError, so the
+# append may stand inside the `try`, in its `else`, or behind a `continue`)
+T_STAR_TAILS = ['''
+cur = []
+todo = TType()
+todo.__ops__ = (__ROOT__,) + t_path[i + 2:]
+for child in nxt:
+    try:
+        cur.append(_t_eval(child, todo, scope))
+    except PathAccessError:
+        pass
+break
+''', '''
+cur = []
+todo = TType()
+todo.__ops__ = (__ROOT__,) + t_path[i + 2:]
+for child in nxt:
+    try:
+        res = _t_eval(child, todo, scope)
+    except PathAccessError:
+        continue
+    cur.append(res)
+break
+''', '''
+cur = []
+todo = TType()
+todo.__ops__ = (__ROOT__,) + t_path[i + 2:]
+for child in nxt:
+    try:
+        res = _t_eval(child, todo, scope)
+    except PathAccessError:
+        pass
+    else:
+        cur.append(res)
+break
+''']
+T_STAR_BRANCH_ALTS = [h.rstrip('\n') + t for h in T_STAR_HEADS for t in T_STAR_TAILS]
+
+T_STARS = ['''
+def __stars__(self):
+    t_ops = self.__ops__[1::2]
+    return t_ops.count('x') + t_ops.count('X')
+''', '''
+def __stars__(self):
+    t_ops = self.__ops__[1::2]
+    return t_ops.count('X') + t_ops.count('x')
+''', '''
+def __stars__(self):
+    return self.__ops__[1::2].count('x') + self.__ops__[1::2].count('X')
+''', '''
+def __stars__(self):
+    return self.__ops__[1::2].count('X') + self.__ops__[1::2].count('x')
+''', '''
+def __stars__(self):
+    return sum(1 for op in self.__ops__[1::2] if op in 'xX')
+''', '''
+def __stars__(self):
+    return len([op for op in self.__ops__[1::2] if op in 'xX'])
+''']
+
+T_APPLY_FOR_EACH = ['''
+def _apply_for_each(func, path, val):
+    layers = path.path_t.__stars__()
+    if layers:
+        for i in range(layers - 1):
+            val = sum(val, [])
+        for inner in val:
+            func(inner)
+    else:
+        func(val)
+''', '''
+def _apply_for_each(func, path, val):
+    layers = path.path_t.__stars__()
+    if layers:
+        for i in range(1, layers):
+            val = sum(val, [])
+        for inner in val:
+            func(inner)
+    else:
+        func(val)
+''', '''
+def _apply_for_each(func, path, val):
+    layers = path.path_t.__stars__()
+    if layers == 0:
+        func(val)
+    else:
+        for i in range(layers - 1):
+            val = sum(val, [])
+        for inner in val:
+            func(inner)
+''', '''
+def _apply_for_each(func, path, val):
+    layers = path.path_t.__stars__()
+    if layers > 0:
+        for i in range(layers - 1):
+            val = sum(val, [])
+        for inner in val:
+            func(inner)
+    else:
+        func(val)
+''']
+
+# the inner `create()` of Path.from_text
+T_FROM_TEXT_CREATE = ['''
+def create():
+    segs = text.split('.')
+    if PATH_STAR:
+        segs = [_T_STAR if seg == '*' else _T_STARSTAR if seg == '**' else seg for seg in segs]
+    elif not cls._STAR_WARNED:
+        if '*' in segs or '**' in segs:
+            warnings.warn(__MSG__)
+            cls._STAR_WARNED = True
+    return cls(*segs)
+''', '''
+def create():
+    segs = text.split('.')
+    if PATH_STAR:
+        segs = [_T_STAR if seg == '*' else _T_STARSTAR if seg == '**' else seg for seg in segs]
+    elif not cls._STAR_WARNED and ('*' in segs or '**' in segs):
+        warnings.warn(__MSG__)
+        cls._STAR_WARNED = True
+    return cls(*segs)
+''']
+
+
+def _parse_fn(src):
+    return ast.parse(src.strip('\n')).body[0]
 
 
 def _root_of(expr, r):
@@ -21,6 +772,8 @@ def _root_of(expr, r):
         return '?'
     if isinstance(expr, ast.IfExp):
         t = expr.test
+        if isinstance(t, ast.UnaryOp) and isinstance(t.op, ast.Not):
+            return _root_of(ast.IfExp(test=t.operand, body=expr.orelse, orelse=expr.body), r)
         if (isinstance(t, ast.Compare) and len(t.ops) == 1 and isinstance(t.left, ast.Name) and t.left.id == 'root'
                 and isinstance(t.comparators[0], ast.Name) and t.comparators[0].id in ('T', 'S', 'A')):
             if isinstance(t.ops[0], ast.Is):
@@ -29,6 +782,15 @@ def _root_of(expr, r):
                 cond = (r != t.comparators[0].id)
             else:
                 return '?'
+            return _root_of(expr.body if cond else expr.orelse, r)
+        if (isinstance(t, ast.Compare) and len(t.ops) == 1 and isinstance(t.ops[0], (ast.In, ast.NotIn))
+                and isinstance(t.left, ast.Name) and t.left.id == 'root'
+                and isinstance(t.comparators[0], (ast.Tuple, ast.List))
+                and all(isinstance(e, ast.Name) and e.id in ('T', 'S', 'A') for e in t.comparators[0].elts)):
+            # `root in (S, A)`: membership by == on sentinels that define no __eq__ is identity
+            cond = r in [e.id for e in t.comparators[0].elts]
+            if isinstance(t.ops[0], ast.NotIn):
+                cond = not cond
             return _root_of(expr.body if cond else expr.orelse, r)
         if isinstance(t, ast.BoolOp) and isinstance(t.op, ast.Or):
             # `root is S or root is A`
@@ -42,12 +804,89 @@ def _root_of(expr, r):
     return '?'
 
 
+def _find_root_expr(stmts, root_name):
+    """the expression E of `X.__ops__ = (E,) + …` in the statements (None when absent), and the
+    statements with E replaced by the name __ROOT__"""
+    found = []
+    for st in stmts:
+        for n in ast.walk(st):
+            if (isinstance(n, ast.Assign) and len(n.targets) == 1 and isinstance(n.targets[0], ast.Attribute)
+                    and n.targets[0].attr == '__ops__' and isinstance(n.value, ast.BinOp)
+                    and isinstance(n.value.op, ast.Add) and isinstance(n.value.left, ast.Tuple)
+                    and len(n.value.left.elts) == 1):
+                found.append(n)
+    if len(found) != 1:
+        return None
+    n = found[0]
+    expr = n.value.left.elts[0]
+    n.value.left.elts[0] = ast.Name(id='__ROOT__', ctx=ast.Load())
+    # the variable holding the root of the original path is spelled `root` for `_root_of`
+    expr = copy.deepcopy(expr)
+    for m in ast.walk(expr):
+        if isinstance(m, ast.Name) and m.id == root_name:
+            m.id = 'root'
+    return expr
+
+
+def _root_variable(te):
+    """the local of `_t_eval` bound to `t_path[0]` (where `t_path` is `_t.__ops__`), else None"""
+    ops_var = None
+    for st in te.body:
+        if _simple_assign(st) and isinstance(st.value, ast.Attribute) and st.value.attr == '__ops__':
+            ops_var = st.targets[0].id
+    for st in te.body:
+        if (_simple_assign(st) and isinstance(st.value, ast.Subscript) and isinstance(st.value.value, ast.Name)
+                and st.value.value.id == ops_var and ast.unparse(st.value.slice) == '0'):
+            return st.targets[0].id
+    return None
+
+
+def _canon_test(test, module, locals_):
+    """a branch test with module-level constants resolved and or-chains of character tests merged"""
+    t = copy.deepcopy(test)
+    holder = ast.Expression(body=t)
+    holder = _ResolveConstants(module, locals_, set()).visit(holder)
+    holder = _ExprNorm().visit(holder)
+    return holder.body
+
+
+def _dispatch_chain(te, ctx, module):
+    """the longest if/elif chain over the op character in a loop of `_t_eval` as [(canonical test, body)]"""
+    if_chain = ctx['if_chain']
+    locs = _local_names(te)
+    best = None
+    for n in ast.walk(te):
+        if isinstance(n, (ast.While, ast.For)):
+            for st in n.body:
+                if isinstance(st, ast.If) and _chars_test(_canon_test(st.test, module, locs)):
+                    ch = [(None if t is None else _canon_test(t, module, locs), b) for t, b in if_chain(st)]
+                    if best is None or len(ch) > len(best):
+                        best = ch
+    return best
+
+
 def extract(ctx):
     P = ctx['P']
     find_def = ctx['find_def']
-    exc_names = ctx['exc_names']
     core = ctx['src_tree']('core.py')
     mut = ctx['src_tree']('mutation.py')
+    try:
+        core_mod = importlib.import_module('glom.core')
+        mut_mod = importlib.import_module('glom.mutation')
+    except Exception as e:       # the facts below then resolve no module-level constant
+        P.add('glom.core / glom.mutation cannot be imported (%r)' % (e,))
+        core_mod = mut_mod = None
+
+    def canon_eq(fn, templates, module, keep=(), mask=False):
+        """is the canonical form of `fn` one of the templates'?  -> (bool, classes of the `except`s)"""
+        got, _ = canon_function(fn, module, keep)
+        caught, got_m = _mask_handlers(got) if mask else ([], got)
+        for src in templates:
+            want, _ = canon_function(_parse_fn(src), None, keep)
+            want_m = _mask_handlers(want)[1] if mask else want
+            if _dump(got_m) == _dump(want_m):
+                return True, caught
+        return False, caught
 
     # ---- _extend_children
     ec_shape = False
@@ -58,104 +897,107 @@ def extract(ctx):
         P.add('_extend_children not found')
     else:
         try:
-            outer = fn.body[0]
-            assert isinstance(outer, ast.Try)
-            body_src = [ast.unparse(s) for s in outer.body]
-            assert body_src[:2] == ["keys = get_handler('keys', item)", "get = get_handler('get', item)"]
-            # the guard: obj-style keys on an instance of a sequence / set type -> iterate instead
-            assert len(outer.body) == 3
-            g = outer.body[2]
-            assert isinstance(g, ast.If) and isinstance(g.test, ast.BoolOp) and isinstance(g.test.op, ast.And)
-            assert ast.unparse(g.test.values[0]) == 'keys is _ObjStyleKeys.get_keys'
-            call = g.test.values[1]
-            assert (isinstance(call, ast.Call) and ast.unparse(call.func) == 'isinstance'
-                    and ast.unparse(call.args[0]) == 'item' and isinstance(call.args[1], ast.Tuple))
-            seq_guard = [ast.unparse(e) for e in call.args[1].elts]
-            assert len(g.body) == 1 and isinstance(g.body[0], ast.Raise)
-            assert ast.unparse(g.body[0].exc.func) == 'UnregisteredTarget' and not g.orelse
-            assert len(outer.handlers) == 1
-            ec_caught.append(('keys_get', exc_names(outer.handlers[0].type)))
-            inner = outer.handlers[0].body[0]
-            assert isinstance(inner, ast.Try)
-            assert [ast.unparse(s) for s in inner.body] == ["iterate = get_handler('iterate', item)"]
-            ec_caught.append(('iterate_lookup', exc_names(inner.handlers[0].type)))
-            assert [ast.unparse(s) for s in inner.handlers[0].body] == ['pass']
-            ext = inner.orelse[0]
-            assert isinstance(ext, ast.Try)
-            assert [ast.unparse(s) for s in ext.body] == ['children.extend(iterate(item))']
-            ec_caught.append(('iterate_run', exc_names(ext.handlers[0].type)))
-            assert [ast.unparse(s) for s in ext.handlers[0].body] == ['pass']
-            kb = outer.orelse[0]
-            assert isinstance(kb, ast.Try)
-            loop = kb.body[0]
-            assert isinstance(loop, ast.For) and ast.unparse(loop.iter) == 'keys(item)'
-            it = loop.body[0]
-            assert isinstance(it, ast.Try)
-            assert [ast.unparse(s) for s in it.body] == ['children.append(get(item, key))']
-            ec_caught.append(('get_item', exc_names(it.handlers[0].type)))
-            assert [ast.unparse(s) for s in it.handlers[0].body] == ['pass']
-            ec_caught.append(('keys_run', exc_names(kb.handlers[0].type)))
-            assert [ast.unparse(s) for s in kb.handlers[0].body] == ['pass']
+            # the guard's types: `isinstance(<item>, (…))` inside the first `try`, read from the canonical
+            # form (an or-chain of isinstance calls and a module-level tuple are one tuple there)
+            cf, _ = canon_function(fn, core_mod)
+            guards = [n for n in ast.walk(cf) if _isinstance_parts(n)]
+            assert len(guards) == 1, 'one isinstance guard expected, found %d' % len(guards)
+            seq_guard = [ast.unparse(e) for e in _isinstance_parts(guards[0])[1]]
+            fn2 = copy.deepcopy(fn)
+            templates = [(T_EXTEND_CHILDREN % head).replace('__GUARD__', '(%s,)' % ', '.join(seq_guard))
+                         for head in T_EXTEND_CHILDREN_HEADS]
+            ok, caught = canon_eq(fn2, templates, core_mod, mask=True)
+            assert ok, 'canonical form differs from the keys+get / iterate template'
+            assert len(caught) == 5
+            # source order of the handlers in the template: outer (keys/get look-up), iterate look-up,
+            # iterate run, per-key get, keys run
+            ec_caught = list(zip(['keys_get', 'iterate_lookup', 'iterate_run', 'get_item', 'keys_run'], caught))
             ec_shape = True
         except (AssertionError, IndexError, AttributeError) as e:
             P.add('_extend_children: unrecognised shape (%r)' % (e,))
             ec_caught = []
             seq_guard = []
 
-    # ---- the 'x' / 'X' branch of _t_eval
+    # ---- the 'x' / 'X' branch of _t_eval, and which op characters reach it
     star_shape = False
     rec_caught = []
     rem_root = []
+    dispatch = []
     te = find_def(core, '_t_eval')
     if te is None:
         P.add('_t_eval not found')
     else:
+        chain = _dispatch_chain(te, ctx, core_mod)
         branch = None
-        for n in ast.walk(te):
-            if isinstance(n, ast.If) and ast.unparse(n.test) == "op in 'xX'":
-                branch = n
-        if branch is None:
-            P.add("_t_eval: branch `op in 'xX'` not found")
+        if chain is None:
+            P.add('_t_eval: op dispatch chain not found')
         else:
+            taken = set()
+            for test, body in chain:
+                ct = _chars_test(test) if test is not None else None
+                if test is not None and ct is None:
+                    P.add('_t_eval: unrecognised branch test %s' % ast.unparse(test))
+                    break
+                chars = ct[1] if ct else []
+                here = [c for c in chars if c in ('x', 'X') and c not in taken]
+                taken |= set(chars)
+                if here:
+                    if branch is not None:
+                        P.add("_t_eval: 'x' and 'X' are dispatched to different branches")
+                        branch = None
+                        break
+                    branch = (here, body)
+                if test is None:
+                    break
+            if branch is None:
+                P.add("_t_eval: no branch of the dispatch chain takes 'x' / 'X'")
+        if branch is not None:
+            here, body = branch
             try:
-                src = [ast.unparse(s) for s in branch.body]
-                assert src[0] == 'nxt = []'
-                assert src[1] == 'get_handler = scope[TargetRegistry].get_handler'
-                sel = branch.body[2]
-                assert isinstance(sel, ast.If) and ast.unparse(sel.test) == "op == 'x'"
-                assert [ast.unparse(s) for s in sel.body] == ['_extend_children(nxt, cur, get_handler)']
-                big = sel.orelse[0]
-                assert isinstance(big, ast.If) and ast.unparse(big.test) == "op == 'X'"
-                bsrc = [ast.unparse(s) for s in big.body]
-                assert bsrc[0] == 'sofar = {id(cur)}'
-                assert bsrc[1] == '_extend_children(nxt, cur, get_handler)'
-                assert bsrc[2] == ('for item in nxt:\n    if id(item) not in sofar:\n'
-                                   '        sofar.add(id(item))\n'
-                                   '        _extend_children(nxt, item, get_handler)')
-                assert bsrc[3] == 'nxt.insert(0, cur)'
-                assert src[3] == 'cur = []'
-                assert src[4] == 'todo = TType()'
-                # `todo.__ops__ = (<root of the remainder>,) + t_path[i + 2:]`: which root the path evaluated
-                # on every child gets, per root of the original path
-                asg = branch.body[5]
-                assert isinstance(asg, ast.Assign) and ast.unparse(asg.targets[0]) == 'todo.__ops__'
-                val = asg.value
-                assert isinstance(val, ast.BinOp) and isinstance(val.op, ast.Add)
-                assert ast.unparse(val.right) == 't_path[i + 2:]'
-                assert isinstance(val.left, ast.Tuple) and len(val.left.elts) == 1
-                rem_root = [(r, _root_of(val.left.elts[0], r)) for r in ('T', 'S', 'A')]
-                loop = branch.body[6]
-                assert isinstance(loop, ast.For) and ast.unparse(loop.iter) == 'nxt'
-                tr = loop.body[0]
-                assert isinstance(tr, ast.Try)
-                assert [ast.unparse(s) for s in tr.body] == ['cur.append(_t_eval(child, todo, scope))']
-                rec_caught = exc_names(tr.handlers[0].type)
-                assert [ast.unparse(s) for s in tr.handlers[0].body] == ['pass']
-                assert isinstance(branch.body[7], ast.Break)
+                locs = _local_names(te)
+                root_var = _root_variable(te)
+                assert root_var is not None, 'the variable holding t_path[0] not found'
+                body2 = copy.deepcopy(body)
+                root_expr = _find_root_expr(body2, root_var)
+                assert root_expr is not None, '`todo.__ops__ = (<root>,) + …` not found'
+                rem_root = [(r, _root_of(root_expr, r)) for r in ('T', 'S', 'A')]
+                got, ren = canon_stmts(body2, core_mod, locs, False)
+                caught, got_m = _mask_handlers(got)
+                ok = False
+                for src in T_STAR_BRANCH_ALTS:
+                    tb = ast.parse(src.strip('\n')).body
+                    tlocs = {'nxt', 'get_handler', 'op', 'cur', 'sofar', 'item', 'todo', 't_path', 'i', 'child',
+                             'scope', 'root', 'res'}
+                    want, _ = canon_stmts(tb, None, tlocs, False)
+                    if _dump(_mask_handlers(want)[1]) == _dump(got_m):
+                        ok = True
+                        break
+                assert ok, 'canonical form differs from the template of the wildcard branch'
+                assert len(caught) == 1
+                rec_caught = caught[0]
+                # which half: the canonical branch tests `op in ('x',)` first
+                dispatch = [(c, 'star' if c == 'x' else 'starstar') for c in sorted(here, key='xX'.index)]
+                assert sorted(here) == ['X', 'x'], 'the branch takes %r only' % (here,)
                 star_shape = True
             except (AssertionError, IndexError, AttributeError) as e:
                 P.add("_t_eval 'xX' branch: unrecognised shape (%r)" % (e,))
                 rem_root = []
+                dispatch = []
+
+    # ---- TType.__star__ / __starstar__ record 'x' / 'X'
+    recorded = []
+    for name in ('__star__', '__starstar__'):
+        fn = find_def(core, name, cls='TType')
+        if fn is None:
+            P.add('TType.%s not found' % name)
+            continue
+        cf, _ = canon_function(fn, core_mod)
+        for ch in ('x', 'X'):
+            want, _ = canon_function(_parse_fn("def f(self):\n    return _t_child(self, %r, None)" % ch), None)
+            if _dump(cf) == _dump(want):
+                recorded.append((name, ch))
+    if len(recorded) != 2:
+        P.add('TType.__star__ / __starstar__: unrecognised shape')
 
     # ---- TType.__stars__
     stars_ok = False
@@ -163,20 +1005,40 @@ def extract(ctx):
     if fn is None:
         P.add('TType.__stars__ not found')
     else:
-        src = [ast.unparse(s) for s in fn.body if not (isinstance(s, ast.Expr) and isinstance(s.value, ast.Constant))]
-        stars_ok = src == ['t_ops = self.__ops__[1::2]', "return t_ops.count('x') + t_ops.count('X')"]
+        stars_ok, _ = canon_eq(fn, T_STARS, core_mod)
         if not stars_ok:
-            P.add('TType.__stars__: unrecognised shape %r' % src)
+            P.add('TType.__stars__: unrecognised shape %r' % [ast.unparse(s) for s in _strip_doc(fn.body)])
 
-    # ---- Path.from_text maps '*' / '**'
+    # ---- Path.from_text maps '*' / '**' iff PATH_STAR
     from_text_ok = False
+    switch_ok = False
     fn = find_def(core, 'from_text', cls='Path')
     if fn is not None:
         src = ast.unparse(fn)
         from_text_ok = ("'*'" in src and "'**'" in src and '_T_STAR' in src and '_T_STARSTAR' in src
                         and 'PATH_STAR' in src)
+        create = [n for n in ast.walk(fn) if isinstance(n, ast.FunctionDef) and n is not fn]
+        if len(create) == 1:
+            cr = copy.deepcopy(create[0])
+            # the text of the warning is not a decision
+            for n in ast.walk(cr):
+                if (isinstance(n, ast.Call) and ast.unparse(n.func) in ('warnings.warn', 'warn') and n.args):
+                    n.args = [ast.Name(id='__MSG__', ctx=ast.Load())]
+                    n.keywords = []
+            keep = ('PATH_STAR', '_T_STAR', '_T_STARSTAR')
+            switch_ok, _ = canon_eq(cr, T_FROM_TEXT_CREATE, core_mod, keep=keep)
+            # the constants are what `T.__star__()` / `T.__starstar__()` build, the switch is a module global
+            if switch_ok and core_mod is not None:
+                try:
+                    switch_ok = (core_mod._T_STAR.__ops__ == (core_mod.T, 'x', None)
+                                 and core_mod._T_STARSTAR.__ops__ == (core_mod.T, 'X', None)
+                                 and isinstance(core_mod.PATH_STAR, bool))
+                except Exception:
+                    switch_ok = False
     if not from_text_ok:
         P.add("Path.from_text: mapping of '*' / '**' not recognised")
+    if not switch_ok:
+        P.add('Path.from_text: the PATH_STAR switch in create() not recognised')
 
     # ---- _apply_for_each
     afe_ok = False
@@ -184,22 +1046,22 @@ def extract(ctx):
     if fn is None:
         P.add('_apply_for_each not found')
     else:
-        src = [ast.unparse(s) for s in fn.body]
-        afe_ok = src == ['layers = path.path_t.__stars__()',
-                         'if layers:\n    for i in range(layers - 1):\n        val = sum(val, [])\n'
-                         '    for inner in val:\n        func(inner)\nelse:\n    func(val)']
+        afe_ok, _ = canon_eq(fn, T_APPLY_FOR_EACH, mut_mod)
         if not afe_ok:
-            P.add('_apply_for_each: unrecognised shape %r' % src)
+            P.add('_apply_for_each: unrecognised shape %r' % [ast.unparse(s) for s in fn.body])
 
     defs = [
         ('c14ExtendChildrenShape', 'Bool', bool(ec_shape)),
-        ('c14ExtendChildrenCaught', 'List (String × List String)', ec_caught),
+        ('c14ExtendChildrenCaught', 'List (String × List String)', [(a, list(b)) for a, b in ec_caught]),
         ('c14SeqGuardTypes', 'List String', seq_guard),
         ('c14StarBranchShape', 'Bool', bool(star_shape)),
-        ('c14RecursionCaught', 'List String', rec_caught),
+        ('c14RecursionCaught', 'List String', list(rec_caught)),
         ('c14RemainderRoot', 'List (String × String)', rem_root),
+        ('c14Dispatch', 'List (String × String)', dispatch),
+        ('c14Recorded', 'List (String × String)', recorded),
         ('c14StarsCountsBoth', 'Bool', bool(stars_ok)),
         ('c14FromTextMapsStars', 'Bool', bool(from_text_ok)),
+        ('c14PathStarSwitch', 'Bool', bool(switch_ok)),
         ('c14ApplyForEachShape', 'Bool', bool(afe_ok)),
     ]
     return [('C14Facts', 'decision shape of the wildcard code (C14)', defs)]
